@@ -34,7 +34,10 @@ VARIANTS = {
     'agen': {'ok': ('true', 'any'), 'unchecked': ('true', 'any'), 'badobj': ('false', 'any')},
     'coro': {'int': ('true', 'int'), 'corohint': ('true', 'int'), 'unchecked': ('true', 'any'),
              # `-> NoReturn`: whatever the body returns violates (the wrapper still has to AWAIT the body first)
-             'noreturn': ('true', 'never'), 'coronoreturn': ('true', 'never')},
+             'noreturn': ('true', 'never'), 'coronoreturn': ('true', 'never'),
+             # `-> Coroutine[..., Coroutine[..., int]]`: the awaited value must itself be a coroutine; table bodies return
+             # ints / None only, so every returned value violates (only ONE level of Coroutine[...] is unwrapped)
+             'corocoro': ('true', 'never')},
 }
 
 
@@ -183,6 +186,7 @@ _ANNOT = {
     ('coro', 'unchecked'): {'table': list},
     ('coro', 'noreturn'): {'return': NoReturn},
     ('coro', 'coronoreturn'): {'return': Coroutine[None, None, NoReturn]},
+    ('coro', 'corocoro'): {'return': Coroutine[None, None, Coroutine[None, None, int]]},
 }
 _CACHE: dict = {}
 _QUIET = False
@@ -216,7 +220,7 @@ def spec_mode(kind, variant):
         return 'viol'
     if kind == 'coro' and variant in ('int', 'corohint'):
         return 'chk'
-    if kind == 'coro' and variant in ('noreturn', 'coronoreturn'):
+    if kind == 'coro' and variant in ('noreturn', 'coronoreturn', 'corocoro'):
         return 'never'
     return 'plain'
 
